@@ -5,7 +5,10 @@ function (UTC transition instants + offset in force), derived here from the rule
 the calendar module only; it is rendered as a TZif stream by the model's render_tzif and the
 extracted SPEC (off / local / fold_spec / preimages / utc_of_spec / resolve_spec, entries 3 and 4)
 is evaluated on it.  Only positive-saving rules are generated (negative saving in tzrange / tzical
-/ tzlocal is the open findings F-C08-3, F-C08-4, F-C17-1 of the posix area)."""
+/ tzlocal is the open findings F-C08-3, F-C08-4, F-C17-1 of the posix area).
+extra_descs(): iCalendar zones with 6-digit +-HHMMSS offsets (non-zero seconds, both signs) and zones built
+from POSIX day-of-year rules in both forms (Jn: 1..365, Feb 29 never counted; n: zero-based, Feb 29 counted),
+probed in leap and common years; expected values from yday_date (calendar module only)."""
 import calendar
 import datetime as D
 import io
@@ -115,12 +118,12 @@ POSIX = [
 ]
 
 
-def posix_descs(kinds):
+def posix_descs(kinds, table=None):
     from dateutil import tz
     from dateutil.relativedelta import relativedelta
     out = []
     years = list(range(Y0, Y1 + 1))
-    for name, std, dst, on, off, tzs, tzstr_s in POSIX:
+    for name, std, dst, on, off, tzs, tzstr_s in (POSIX if table is None else table):
         if dst is None:
             ons, init = [], std
         else:
@@ -237,6 +240,140 @@ def multi_era_desc(r, k):
     return d
 
 
+
+# ------------------------------------------------------------------------------ +-HHMMSS offsets, day-of-year rules
+# iCalendar zones whose TZOFFSETFROM / TZOFFSETTO use the 6-digit form with non-zero seconds, both signs
+# (Monrovia -004430, Caracas -042740, a positive LMT-like +055328, a DST that crosses zero)
+SEC_POSIX = [
+    ("caracas-sec", -16060, -12460, (3, 2, 0, 7200), (11, 1, 0, 7200), None, None),
+    ("monrovia-sec", -2670, 930, (3, 5, 0, 3600), (10, 5, 0, 7200), None, None),
+    ("kolkata-lmt-sec", 21208, 24808, (4, 1, 0, 0), (10, 5, 0, 3600), None, None),
+    ("south-neg-sec", -11322, -7722, (10, 1, 0, 7200), (4, 1, 0, 10800), None, None),
+]
+SEC_FIXED = [
+    # name, [(wall onset, from, to)]: STANDARD components without a rule
+    ("monrovia-fixed", [(D.datetime(1984, 3, 1, 0, 0), -2588, -2670), (D.datetime(2003, 1, 7, 0, 0), -2670, 0)]),
+    ("caracas-fixed", [(D.datetime(1985, 2, 12, 0, 0), -16064, -16060), (D.datetime(1999, 1, 1, 0, 0), -16060, -16200),
+                       (D.datetime(2012, 5, 1, 2, 0), -16200, 16230)]),
+]
+
+
+def sec_fixed_descs():
+    from dateutil import tz
+    out = []
+    for name, chs in SEC_FIXED:
+        comps = [("STANDARD", w, fr, to, "S%d" % k, None) for k, (w, fr, to) in enumerate(chs)]
+        ons = [(secs(w) - fr, to, w, fr, to, False) for (w, fr, to) in chs]
+        for order in (list(range(len(comps))), list(range(len(comps)))[::-1]):
+            text = vtimezone(name, comps, order)
+            # named multi-era-*: several eras of standard offsets, same class as multi_era_desc (the sub-stream next to
+            # the changes of the standard offset belongs to finding F-C04/C05-tzical-std-change)
+            d = Desc("tzical:multi-era-sec-%s/%s" % (name, "".join(map(str, order))), "tzical",
+                     lambda text=text: tz.tzical(io.StringIO(text)).get(), chs[0][1],
+                     [(u, o) for (u, o, _w, _f, _t, _d) in ons],
+                     [(-10 ** 12, ons[0][0] + 3 * 86400), (secs(D.datetime(2030, 6, 1)), 10 ** 12)], ons)
+            d.era_boundaries = [x[0] for x in ons[1:]]
+            d.text = text
+            d.all_years = True
+            out.append(d)
+    return out
+
+
+def yday_date(year, form, n):
+    """POSIX day-of-year rules.  'J': n = 1..365, February 29 is never counted (so the month and day are the
+    same in every year); 'n': zero-based 0..365, February 29 IS counted."""
+    if form == "J":
+        month = 1
+        while n > calendar.monthrange(2001, month)[1]:
+            n -= calendar.monthrange(2001, month)[1]
+            month += 1
+        return D.date(year, month, n)
+    month = 1
+    n += 1
+    while n > calendar.monthrange(year, month)[1]:
+        n -= calendar.monthrange(year, month)[1]
+        month += 1
+    return D.date(year, month, n)
+
+
+def yday_onsets(std, dst, on, off, years):
+    out = []
+    for y in years:
+        d = yday_date(y, on[0], on[1])
+        w = D.datetime(d.year, d.month, d.day) + D.timedelta(seconds=on[2])
+        out.append((secs(w) - std, dst, w, std, dst, True))
+        d = yday_date(y, off[0], off[1])
+        w = D.datetime(d.year, d.month, d.day) + D.timedelta(seconds=off[2])
+        out.append((secs(w) - dst, std, w, dst, std, False))
+    return sorted(out)
+
+
+YDAY = [
+    # name, std, dst, on (form, n, secs), off (form, n, secs), TZ string (libc and tzstr)
+    ("J95-J298", -18000, -14400, ("J", 95, 7200), ("J", 298, 7200), "EST5EDT,J95/2,J298/2"),
+    ("n94-n297", -18000, -14400, ("n", 94, 7200), ("n", 297, 7200), "EST5EDT,94/2,297/2"),
+    ("n95-n298-long", -18000, -14400, ("n", 95, 7200), ("n", 298, 7200), "EST5EDT4,95/02:00:00,298/02:00"),
+    ("n59-n300", 3600, 7200, ("n", 59, 7200), ("n", 300, 10800), "CET-1CEST,59/2,300/3"),
+    ("J60-J300", 3600, 7200, ("J", 60, 7200), ("J", 300, 10800), "CET-1CEST,J60/2,J300/3"),
+    ("n40-n330", 0, 3600, ("n", 40, 3600), ("n", 330, 7200), "GMT0BST,40/1,330/2"),
+    ("south-n280-n70", 36000, 39600, ("n", 280, 7200), ("n", 70, 10800), "AEST-10AEDT,280/2,70/3"),
+    ("south-J274-J91", 43200, 46800, ("J", 274, 7200), ("J", 91, 10800), "NZST-12NZDT,J274/2,J91/3"),
+    ("n120-n364", -10800, -7200, ("n", 120, 0), ("n", 364, 7200), "<-03>3<-02>,120/0,364/2"),
+]
+
+
+def yday_descs(kinds=("tzlocal", "tzstr", "tzrange", "tzical")):
+    from dateutil import tz
+    from dateutil.relativedelta import relativedelta
+    out = []
+    years = list(range(Y0, Y1 + 1))
+    avoid = [(-10 ** 12, secs(D.datetime(Y0, 1, 1)) + 400 * 86400), (secs(D.datetime(Y1, 1, 1)) - 40 * 86400, 10 ** 12)]
+    for name, std, dst, on, off, tzs in YDAY:
+        ons = yday_onsets(std, dst, on, off, years)
+        init = ons[0][3]
+        trans = [(u, o) for (u, o, _w, _f, _t, _d) in ons]
+        ds = []
+        if "tzlocal" in kinds:
+            def mk_local(tzs=tzs):
+                os.environ["TZ"] = tzs
+                _time.tzset()
+                return tz.tzlocal()
+            ds.append(Desc("tzlocal:" + tzs, "tzlocal", mk_local, init, trans, avoid, ons))
+        if "tzstr" in kinds:
+            s = tzs.replace("<-03>3<-02>", "BRT3BRST")
+            ds.append(Desc("tzstr:" + s, "tzstr", lambda s=s: tz.tzstr(s), init, trans, avoid, ons))
+        if "tzrange" in kinds and off[2] - (dst - std) >= 0:
+            def mk_range(std=std, dst=dst, on=on, off=off):
+                def rd(rule, secs_std):
+                    if rule[0] == "J":
+                        return relativedelta(seconds=secs_std, nlyearday=rule[1])
+                    return relativedelta(seconds=secs_std, yearday=rule[1] + 1)
+                return tz.tzrange("STD", std, "DST", dst, rd(on, on[2]), rd(off, off[2] - (dst - std)))
+            ds.append(Desc("tzrange:yday-" + name, "tzrange", mk_range, init, trans, avoid, ons))
+        if "tzical" in kinds:
+            def rr(rule, until):
+                if rule[0] == "J":
+                    dd = yday_date(2001, "J", rule[1])
+                    return "FREQ=YEARLY;BYMONTH=%d;BYMONTHDAY=%d;UNTIL=%s" % (dd.month, dd.day, until.strftime("%Y%m%dT%H%M%S"))
+                return "FREQ=YEARLY;BYYEARDAY=%d;UNTIL=%s" % (rule[1] + 1, until.strftime("%Y%m%dT%H%M%S"))
+            d_on = [x for x in ons if x[5]]
+            d_off = [x for x in ons if not x[5]]
+            comps = [("DAYLIGHT", d_on[0][2], std, dst, "DST", rr(on, d_on[-1][2] + D.timedelta(days=1))),
+                     ("STANDARD", d_off[0][2], dst, std, "STD", rr(off, d_off[-1][2] + D.timedelta(days=1)))]
+            text = vtimezone("yday-" + name, comps, [0, 1])
+            ds.append(Desc("tzical:yday-%s" % name, "tzical", lambda text=text: tz.tzical(io.StringIO(text)).get(),
+                           init, trans, avoid + [(-10 ** 12, ons[1][0] + 3 * 86400)], ons))
+        for d in ds:
+            d.leap_and_common = True
+        out += ds
+    return out
+
+
+def extra_descs():
+    """deterministic descriptions (no random choices): sub-minute iCalendar offsets, day-of-year rules"""
+    return posix_descs(("tzical",), SEC_POSIX) + sec_fixed_descs() + yday_descs()
+
+
 # ------------------------------------------------------------------------------ the stream
 def instants_for(desc, r, years, nrand):
     us = set()
@@ -258,7 +395,7 @@ def run(cid, o, tier):
     """Returns (n, bad, stats).  bad = [{zone, u | w, why, impl, expected}]."""
     from dateutil import tz
     r = C.rng("genzones/" + cid)
-    descs = posix_descs(("tzlocal", "tzstr", "tzrange", "tzical"))
+    descs = posix_descs(("tzlocal", "tzstr", "tzrange", "tzical")) + extra_descs()
     nmulti = 14 if tier == "quick" else 120
     k = 0
     while sum(1 for d in descs if d.kind == "tzical-multi") < nmulti and k < 10 * nmulti:
@@ -272,6 +409,12 @@ def run(cid, o, tier):
         ys = sorted(set(r.sample(range(Y0 + 2, Y1 - 1), 3 if tier == "quick" else 12)))
         if desc.kind == "tzical-multi":
             ys = sorted(set(ys) | set(r.sample(range(Y0 + 2, Y1 - 1), 3)))
+        if getattr(desc, "leap_and_common", False):   # day-of-year rules: leap AND common years, always
+            leap = [y for y in range(Y0 + 2, Y1 - 1) if calendar.isleap(y)]
+            comm = [y for y in range(Y0 + 2, Y1 - 1) if not calendar.isleap(y)]
+            ys = sorted(r.sample(leap, 2) + r.sample(comm, 2))
+        if getattr(desc, "all_years", False):
+            ys = list(range(Y0, Y1 + 1))
         us = instants_for(desc, r, ys, 14 if tier == "quick" else 60)
         # era boundaries of multi-era zones: the generic layer assumes a constant standard offset;
         # instants closer than 3 days to a change of the standard offset are kept out of this stream
